@@ -225,6 +225,12 @@ fn run_all(ctx: &Ctx, mode: Mode, bytes: &[u8], what: String, n_opts: usize) {
         // step may hold, otherwise the allowance would grow with records x points instead of the input
         let sized = pc.prototype.iter().filter(|r| crate::conv::ty_from_e57(&r.data_type).bits() > 0).count().max(1) as u64;
         j.step_cons = ((1u64 << 19) / bits + 1) * sized * 24 * 2 * 4 + (4 << 20);
+        // a cloud none of whose records has bits has no packet to decode: its points follow from
+        // the prototype alone and a step has no reason to hold more than a few of them, however
+        // many the record count announces
+        if pc.prototype.iter().all(|r| crate::conv::ty_from_e57(&r.data_type).bits() == 0) {
+            j.step_cons = 4 << 20;
+        }
         // raw iterator
         let it = j.call("pointcloud_raw", &dev, 4, || r.pointcloud_raw(pc).ok());
         if let Some(Some(mut it)) = it {
@@ -540,23 +546,31 @@ pub fn amplify(ctx: &Ctx) {
     let shapes: &[(usize, usize)] = if ctx.tier_thorough { &[(200, 4_000), (1000, 800), (3000, 300), (40, 20_000), (10, 30_000)] } else { &[(200, 4_000), (1000, 800)] };
     let (z, b) = shapes[ctx.pick("records-x-stream-bytes", shapes.len())];
     let scaled = ctx.pick("zero-width-type", 2) == 1;
-    let sized_last = ctx.pick("sized-record-last", 2) == 1;
+    // 0: sized record first, 1: sized record last, 2: no sized record at all (the points then
+    // exist only as the record count of the XML: 400000 / 100000 of them in a file of a few KiB)
+    let sized_pos = ctx.pick("sized-record-first-last-absent", 3);
+    let sized_last = sized_pos == 1;
+    let absent = sized_pos == 2;
+    let (z, b) = if absent { if z >= 1000 { (8, 100_000 / 8) } else { (3, 400_000 / 8) } } else { (z, b) };
     let mode = if ctx.pick("oracle", 2) == 0 { Mode::Budget } else { Mode::NoPanic };
     let zero_ty = if scaled { Ty::Scaled { min: 5, max: 5, scale: 0.5, offset: 1.0 } } else { Ty::Int { min: 5, max: 5 } };
     let mut proto: Vec<m::Rec> = Vec::new();
-    if !sized_last {
+    if !sized_last && !absent {
         proto.push(crate::cat::rec("cartesianX", Ty::Int { min: 0, max: 1 }));
     }
     for i in 0..z {
         proto.push(crate::cat::ext_rec("ext", &format!("c{i}"), zero_ty.clone()));
     }
-    if sized_last {
+    if sized_last && !absent {
         proto.push(crate::cat::rec("cartesianX", Ty::Int { min: 0, max: 1 }));
     }
     let n = 8 * b;
     let zero_val = if scaled { Val::Scaled(5) } else { Val::Int(5) };
     let points: Vec<Vec<Val>> = (0..n)
         .map(|i| {
+            if absent {
+                return vec![zero_val; z];
+            }
             let mut p = vec![zero_val; z + 1];
             p[if sized_last { z } else { 0 }] = Val::Int(((i * 7 + i / 3) % 2) as i64);
             p
@@ -567,9 +581,13 @@ pub fn amplify(ctx: &Ctx) {
     sc.extensions = vec![("ext".into(), "http://example.com/ext".into())];
     sc.clouds.push(m::Cloud { meta: m::CloudMeta { guid: Some("c".into()), ..Default::default() }, proto, points, records: n as u64, file_offset: 0 });
     let bytes = encode(&sc, &mut Canonical, Knobs::NONE).bytes;
-    let what = format!("one 1-bit record with {b} stream bytes ({n} points, one data packet) and {z} records of type {} ({} bytes)", zero_ty.describe(), bytes.len());
+    let what = if absent {
+        format!("{n} points of {z} records of type {} and no record with bits ({} bytes)", zero_ty.describe(), bytes.len())
+    } else {
+        format!("one 1-bit record with {b} stream bytes ({n} points, one data packet) and {z} records of type {} ({} bytes)", zero_ty.describe(), bytes.len())
+    };
     ctx.describe(|| what.clone());
-    ctx.observe_u64((z * 1_000_000 + b) as u64);
+    ctx.observe_u64((z * 1_000_000 + b) as u64 + if absent { 1 << 40 } else { 0 });
     run_all(ctx, mode, &bytes, what, 2);
     ctx.nontrivial();
 }
